@@ -276,6 +276,11 @@ def state_independence(rep, prog, rule):
             buffered = any(w in recv for w in BUF_WORDS) or (is_helper and "buffer" in recv)
             if not buffered or (p_, s) in seen:
                 continue
+            from ..engines.dispatch_rules import _is_panic_block
+            tt = f.term(p_)
+            targets = [b for _, b in tt[2]] + [tt[3]] if tt and tt[0] == "sw" else []
+            if any(_is_panic_block(f, b) for b in targets):
+                continue        # an assertion about the buffer, not a decision
             seen.add((p_, s))
             n += 1
             rep.touch(f)
